@@ -219,6 +219,8 @@ func main() {
 	switch os.Args[1] {
 	case "c17child":
 		c17Child()
+	case "c20child":
+		c20Child(os.Args[2:])
 	case "list":
 		for _, p := range parts {
 			fmt.Println(p.prop, p.name, p.tiers)
